@@ -26,7 +26,7 @@ ASSUMPTIONS = [
 ]
 MIN_COUNTERS = {
     "quick": {"sim_runs": 5000, "accepted": 500, "rejected_in_run": 500, "rejected_at_end": 100},
-    "thorough": {"sim_runs": 1000000, "accepted": 50000, "rejected_in_run": 50000, "rejected_at_end": 10000},
+    "thorough": {"sim_runs": 500000, "accepted": 50000, "rejected_in_run": 50000, "rejected_at_end": 10000},
 }
 
 PLACEMENTS = ("top", "setup", "sub", "sub_long", "compose_sub", "compose_top", "top_limit", "sub_limit")
@@ -129,7 +129,7 @@ def _formulas(tier, seed):
     d1 = ltlf.enumerate_formulas(1, 2)
     d2 = [f for f in ltlf.enumerate_formulas(2, 2) if ltlf.depth(f) == 2]
     out = list(d1)
-    n2, n3, n3atoms = (200, 40, 16) if tier == "quick" else (1500, 600, 100)
+    n2, n3, n3atoms = (200, 40, 16) if tier == "quick" else (700, 300, 60)
     if n2 >= len(d2):
         out += d2
     else:
